@@ -441,7 +441,7 @@ def _replay_porcelain(v, native):
         p = subprocess.run([exe, 'c09_porcelain'], input=json.dumps(payload).encode(), stdout=subprocess.PIPE, stderr=subprocess.PIPE, env=env, timeout=60)
         if p.returncode == 101:
             return {'reproduced': v['kind'] == 'panic', 'stderr': p.stderr.decode('utf-8', 'replace')[-300:]}
-        r = json.loads(p.stdout.decode().strip().splitlines()[-1])
+        r = json.loads(p.stdout.decode().strip().split('\n')[-1])
         if not r.get('ok'):
             return {'reproduced': v['obligation'] == 'K4-parse-ok', 'native': r}
         bad_cover = False
